@@ -360,7 +360,12 @@ def _decrypt_hmac(key: bytes, data: bytes, digest: str) -> bytes:
     decrypted = cipher.decrypt(encrypted)
     if decrypted[-1] <= 16:
         # PKCS#7 padding
-        decrypted = decrypted[: -decrypted[-1]]
+        # The HMAC only covers the cleartext, so the padding has to be validated in full, otherwise an altered
+        # ciphertext block that happens to decrypt to a valid final padding byte is not noticed
+        padding = decrypted[-1]
+        if padding == 0 or decrypted[-padding:] != bytes([padding]) * padding:
+            raise ValueError("Invalid padding, wrong key?")
+        decrypted = decrypted[:-padding]
 
     # We don't do any secret crypto so we don't care about the warning in the docs about timing attacks
     if hmac.digest(key, decrypted, digest)[:digest_size] != mac:
